@@ -268,6 +268,36 @@ func shapes(r *engine.Rec) {
 			roundTrip(r, "sizes", fmt.Sprintf("%s of %d ints", k, size), "", mkKind(k, items))
 		}
 	}
+	// keys of every leaf kind (nil included) in Catalogs and Maps of one to three associations
+	keySets := map[string][]any{
+		"nil first":    {nil, "a", int64(2)},
+		"nil last":     {"a", int64(2), nil},
+		"booleans":     {true, false},
+		"runes":        {'b', 'a', 'c'},
+		"floats":       {1.5, -2.5, 0.0},
+		"strings":      {"", "b", "a"},
+		"mixed":        {int64(1), "1", '1'},
+		"unsigned":     {uint64(7), uint64(0)},
+		"complex":      {complex(1, 2), complex(0, -1)},
+	}
+	for kname, ks := range keySets {
+		for size := 1; size <= len(ks); size++ {
+			n++
+			cat := col.Catalog[any, any](N()).Make()
+			mp := col.Map[any, any](N()).Make()
+			for i, k := range ks[:size] {
+				cat.SetValue(k, int64(10+i))
+				if kname != "nested lists" { // a Go map cannot take a pointer-to-list key by content
+					mp.SetValue(k, int64(10+i))
+				}
+			}
+			roundTrip(r, "keys", fmt.Sprintf("Catalog with %d keys (%s)", size, kname), "", cat)
+			if kname != "nested lists" {
+				roundTrip(r, "keys", fmt.Sprintf("Map with %d keys (%s)", size, kname), "", mp)
+				roundTrip(r, "keys", fmt.Sprintf("List holding a Map with %d keys (%s)", size, kname), "", mkKind("List", []any{mp, int64(0)}))
+			}
+		}
+	}
 	// every kind nested in every kind in every kind (<= 2 children)
 	for _, k1 := range kinds {
 		for _, k2 := range kinds {
